@@ -620,6 +620,7 @@ def run(res, tier):
             okp = isinstance(c.args[2], pyast.Name) and c.args[2].id == 'MUSCLE_MESSAGE_ENCODING_DEFAULT' and isinstance(c.args[1], pyast.Call)
     res.ob('FRAME', 'lang/python3/message_transceiver_thread.py', 'Python transceiver packs "<2L" (FlattenedSize(), MUSCLE_MESSAGE_ENCODING_DEFAULT)', okp, function='Python:transceiver', key='FRAME|python',
            message='message_transceiver_thread.py no longer frames Messages as "<2L" of length and default encoding')
+    py_recv_rule(res, py)
     cmini_consistency_rules(res, fx)
     c_unlink_rule(res, fx)
     # the header's encoding word has to describe the body it precedes (the rule lives with the zlib stream discipline in C03; here it is the header/body agreement of the frame)
@@ -631,3 +632,61 @@ def run(res, tier):
                        'with the other three tables. Equality of decoded content is not decided.')
     res.assumptions = ['the documented table (DOC in rules/C08.py) transcribes the layout comment in Message.cpp and the property text']
     res.not_decided = ['value-level decode equality between implementations', 'the csharp/java/delphi/python2 ports (not named by the property)']
+
+
+def py_recv_rule(res, py):
+    """RECV-EXACT (Python transceiver): recv(n) may return any number of bytes up to n, and the frame boundary is found by `len(acc) == want`; so a recv() whose result is
+    appended to such an accumulator must ask for exactly the bytes still missing (`want - len(acc)`), or the accumulator swallows the start of what follows and the
+    equality test never fires again."""
+    res.rule('RECV-EXACT', 'message_transceiver_thread.py: a recv() whose result is appended to an accumulator that is compared with a wanted length by `len(acc) == want` requests '
+                           '`want - len(acc)` bytes (never more than what is missing from the current frame part)', floor=2)
+    n_sites = 0
+    for fn in (x for x in pyast.walk(py.ttree) if isinstance(x, pyast.FunctionDef)):
+        # single simple assignments name = expr (used to look through `remaining = want - len(acc)`)
+        assigns = {}
+        for a in pyast.walk(fn):
+            if isinstance(a, pyast.Assign) and len(a.targets) == 1 and isinstance(a.targets[0], pyast.Name):
+                assigns.setdefault(a.targets[0].id, []).append(a.value)
+        wants = {}   # accumulator name -> [dump of the wanted-length expression]
+        for c in pyast.walk(fn):
+            if isinstance(c, pyast.Compare) and len(c.ops) == 1 and isinstance(c.ops[0], (pyast.Eq, pyast.GtE)) and len(c.comparators) == 1:
+                for (l, r) in ((c.left, c.comparators[0]), (c.comparators[0], c.left)):
+                    if isinstance(l, pyast.Call) and isinstance(l.func, pyast.Name) and l.func.id == 'len' and len(l.args) == 1 and isinstance(l.args[0], pyast.Name):
+                        wants.setdefault(l.args[0].id, []).append(pyast.dump(r))
+        for blk in pyast.walk(fn):
+            for body in (getattr(blk, 'body', None), getattr(blk, 'orelse', None)):
+                if not isinstance(body, list):
+                    continue
+                for (i, st) in enumerate(body):
+                    if not (isinstance(st, pyast.Assign) and len(st.targets) == 1 and isinstance(st.targets[0], pyast.Name) and isinstance(st.value, pyast.Call)
+                            and isinstance(st.value.func, pyast.Attribute) and st.value.func.attr == 'recv' and len(st.value.args) >= 1):
+                        continue
+                    got = st.targets[0].id
+                    acc = None
+                    for later in body[i + 1:]:
+                        for a in pyast.walk(later):
+                            if isinstance(a, pyast.Assign) and len(a.targets) == 1 and isinstance(a.targets[0], pyast.Name) and isinstance(a.value, pyast.BinOp) and isinstance(a.value.op, pyast.Add) \
+                                    and isinstance(a.value.left, pyast.Name) and a.value.left.id == a.targets[0].id and isinstance(a.value.right, pyast.Name) and a.value.right.id == got:
+                                acc = a.targets[0].id
+                            if isinstance(a, pyast.AugAssign) and isinstance(a.op, pyast.Add) and isinstance(a.target, pyast.Name) and isinstance(a.value, pyast.Name) and a.value.id == got:
+                                acc = a.target.id
+                    if acc is None or acc not in wants:
+                        continue
+                    n_sites += 1
+                    def exact(e, depth=0):
+                        if isinstance(e, pyast.BinOp) and isinstance(e.op, pyast.Sub) and pyast.dump(e.left) in wants[acc] and isinstance(e.right, pyast.Call) and isinstance(e.right.func, pyast.Name) \
+                                and e.right.func.id == 'len' and len(e.right.args) == 1 and isinstance(e.right.args[0], pyast.Name) and e.right.args[0].id == acc:
+                            return True
+                        if isinstance(e, pyast.Call) and isinstance(e.func, pyast.Name) and e.func.id == 'min':
+                            return any(exact(x, depth) for x in e.args)
+                        if isinstance(e, pyast.Name) and depth < 2 and len(assigns.get(e.id, [])) == 1:
+                            return exact(assigns[e.id][0], depth + 1)
+                        return False
+                    ok = exact(st.value.args[0])
+                    res.ob('RECV-EXACT', 'lang/python3/message_transceiver_thread.py:%d' % st.lineno, 'recv() feeding `%s` asks for what `len(%s) == …` still misses' % (acc, acc), ok, function='Python:transceiver',
+                           key='RECV-EXACT|%s|%s' % (fn.name, acc), how=pyast.unparse(st.value.args[0]) if hasattr(pyast, 'unparse') else '',
+                           message='message_transceiver_thread.py:%d requests %s bytes for the accumulator `%s` whose completion test is len(%s) == <wanted>: recv() may then return bytes of the next '
+                                   'frame part, the accumulator grows past the wanted length, the equality never holds again and every following Message is swallowed'
+                                   % (st.lineno, pyast.unparse(st.value.args[0]) if hasattr(pyast, 'unparse') else '?', acc, acc))
+    if n_sites < 2:
+        raise AnalysisBroken('RECV-EXACT: fewer than 2 accumulating recv() sites found in message_transceiver_thread.py (%d)' % n_sites)
